@@ -1,6 +1,7 @@
 package tcp
 
 import (
+	"github.com/brewlin/net-protocol/protocol/header"
 	"container/heap"
 
 	"github.com/brewlin/net-protocol/pkg/seqnum"
@@ -235,4 +236,29 @@ func vh_peek_step() {
 	e.rcvListMu.Unlock()
 	vassert(err2 == nil && vhConsistent(readPos.Add(seqnum.Size(read)), v), "a read after Peek returns the same next bytes")
 	vreach("peek")
+}
+
+// C07: the receiver's SACK scoreboard when many holes are open: a scoreboard of 5-6 pairwise
+// disjoint blocks above a symbolic rcvNxt (any position in the 32-bit space), one more
+// out-of-order segment anywhere within the next 64 bytes (merging with zero, one or two
+// blocks, or opening another hole): the update never writes outside the block array, never
+// leaves more than MaxSACKBlocks blocks, and reports the new segment first (RFC 2018 s.4).
+func vh_sack_update_full() {
+	var sack SACKInfo
+	rcvNxt := seqnum.Value(vnU32("rcvNxt"))
+	nb := MaxSACKBlocks - vnChoice("missing", 2)
+	sack.NumBlocks = nb
+	for i := 0; i < nb; i++ {
+		sack.Blocks[i] = header.SACKBlock{Start: rcvNxt.Add(seqnum.Size(8*i + 4)), End: rcvNxt.Add(seqnum.Size(8*i + 8))}
+	}
+	off := vnU8("off")
+	vassume(off >= 1 && off < 64)
+	start := rcvNxt.Add(seqnum.Size(off))
+	end := start.Add(seqnum.Size(1 + vnChoice("seglen", 3)))
+	UpdateSACKBlocks(&sack, start, end, rcvNxt)
+	vassert(sack.NumBlocks >= 1 && sack.NumBlocks <= MaxSACKBlocks, "the scoreboard never holds more than MaxSACKBlocks blocks")
+	vassert(!start.LessThan(sack.Blocks[0].Start) && !sack.Blocks[0].End.LessThan(end), "the first block covers the segment that just arrived (RFC 2018 section 4)")
+	TrimSACKBlockList(&sack, rcvNxt.Add(seqnum.Size(vnU8("advance")&63)))
+	vassert(sack.NumBlocks >= 0 && sack.NumBlocks <= MaxSACKBlocks, "trimming keeps the block count in range")
+	vreach("updated")
 }
